@@ -94,7 +94,7 @@ func newInterp(prog *ssa.Program, base *Base, cfg *RunConfig) *Interp {
 		objs: map[int]*Object{}, maps: map[int]*MapObj{}, chans: map[int]*ChanObj{},
 		strs: map[string]int{}, globals: map[*ssa.Global]int{}, poisoned: map[int]string{},
 		inited: map[*ssa.Package]bool{}, ghost: map[string]Value{},
-		onceDone: map[Ptr]bool{}, pools: map[Ptr][]Value{}, atomicVals: map[Ptr]Value{},
+		onceDone: map[Ptr]bool{}, pools: map[Ptr][]Value{}, atomicVals: map[Ptr]Value{}, reflIters: map[int]*reflMapIter{}, syncMaps: map[Ptr]*MapObj{},
 		maxSteps: cfg.MaxSteps, unwind: cfg.Unwind,
 	}
 	if base != nil {
@@ -106,6 +106,9 @@ func newInterp(prog *ssa.Program, base *Base, cfg *RunConfig) *Interp {
 		}
 		for k, v := range base.atomicVals {
 			in.atomicVals[k] = v
+		}
+		for k, v := range base.syncMaps {
+			in.syncMaps[k] = v.clone()
 		}
 	}
 	return in
@@ -129,7 +132,7 @@ func buildBase(prog *ssa.Program, pkgs []*ssa.Package, cfg *RunConfig) (*Base, [
 	}
 	b := &Base{objs: in.objs, maps: in.maps, boxes: in.boxes, globals: in.globals, strs: in.strs,
 		nextObj: in.nextObj, nextMap: in.nextMap, inited: in.inited, poisoned: in.poisoned,
-		onceDone: in.onceDone, atomicVals: in.atomicVals}
+		onceDone: in.onceDone, atomicVals: in.atomicVals, syncMaps: in.syncMaps}
 	return b, in.initErrors
 }
 
